@@ -49,7 +49,7 @@ type c13Inst struct {
 	creator map[types.PageID]int
 	pins    [c13Users]map[types.PageID]*page.Page
 	must    [c13Users]map[types.PageID]bool // written since pin => must unpin dirty
-	leaked  int                            // frames whose last pin was given up by a hash-join style deallocation
+	leaked  int                             // frames whose last pin was given up by a hash-join style deallocation
 	news    int
 	last    string
 }
@@ -180,8 +180,16 @@ func (in *c13Inst) write(pg *page.Page, p types.PageID) {
 	in.latest[p] = tag
 }
 
-func (in *c13Inst) pageTable() map[types.PageID]uint32 {
-	out := map[types.PageID]uint32{}
+// pageTable reads the pool's private page table (nil if the field cannot be read: the page-table
+// invariant is then skipped and the state key is coarser).
+func (in *c13Inst) pageTable() (out map[types.PageID]uint32) {
+	defer func() {
+		if r := recover(); r != nil {
+			core.MarkUnreadable("BufferPoolManager.pageTable")
+			out = nil
+		}
+	}()
+	out = map[types.PageID]uint32{}
 	pt := core.Field(in.bpm, "pageTable")
 	for it := pt.MapRange(); it.Next(); {
 		out[types.PageID(it.Key().Int())] = uint32(it.Value().Uint())
@@ -248,7 +256,10 @@ func (in *c13Inst) Apply(op string) (viol *core.Violation) {
 		in.write(pg, id)
 		in.must[u][id] = true
 	case "Fetch":
-		_, wasResident := in.pageTable()[p]
+		wasResident := true
+		if pt := in.pageTable(); pt != nil {
+			_, wasResident = pt[p]
+		}
 		pg := in.bpm.FetchPage(p)
 		if pg == nil {
 			return bad("fetch-nil", fmt.Sprintf("FetchPage(%d) returned nil for a live page", p))
@@ -391,7 +402,10 @@ func (in *c13Inst) Key() string {
 		}
 		fmt.Fprintf(&sb, "%d:%d,%d,%v,%v,%x ", f, pg.GetPageID(), pg.PinCount(), pg.IsDirty(), pg.IsDeallocated(), tagOf(pg.Data()))
 	}
-	fmt.Fprintf(&sb, "|free%s|reuse%s|%s|", core.DumpV(core.Field(in.bpm, "freeList")), core.DumpV(core.Field(in.bpm, "reUsablePageList")), replacerKey(in.bpm))
+	fmt.Fprintf(&sb, "|free%s|reuse%s|%s|",
+		core.Safe("BufferPoolManager.freeList", func() string { return core.DumpV(core.Field(in.bpm, "freeList")) }),
+		core.Safe("BufferPoolManager.reUsablePageList", func() string { return core.DumpV(core.Field(in.bpm, "reUsablePageList")) }),
+		core.Safe("BufferPoolManager.replacer (clock list)", func() string { return replacerKey(in.bpm) }))
 	// disk image and model
 	var all []int
 	for p := range in.creator {
